@@ -66,6 +66,7 @@ void w_set_outpkt(const char *data, int len, int offset, int seqno, int fragment
 	outpkt.seqno = seqno; outpkt.fragment = fragment;
 }
 void w_send_chunk(int fd) { send_chunk(fd); }
+void w_resend_chunk(int fd) { outchunkresent++; send_chunk(fd); }      /* as client_tunnel() does on the re-send timeout */
 void w_send_ping(int fd) { send_ping(fd); }
 void w_send_version(int fd) { send_version(fd, PROTOCOL_VERSION); }
 void w_send_login(int fd, char *login, int len) { send_login(fd, login, len); }
